@@ -9,6 +9,8 @@ import (
 	"verifharness/props/c05"
 	"verifharness/props/c06"
 	"verifharness/props/c07"
+	"verifharness/props/c08"
+	"verifharness/props/c09"
 	"verifharness/props/c10"
 	"verifharness/props/c11"
 	"verifharness/props/c12"
@@ -38,6 +40,8 @@ import (
 )
 
 var checks = map[string]driver.Check{
+	"C09": {Level: "fault_enumeration", Fn: c09.Run},
+	"C08": {Level: "fault_enumeration", Fn: c08.Run},
 	"C11": {Level: "exploration", Fn: c11.Run},
 	"C10": {Level: "exploration", Fn: c10.Run},
 	"C37": {Level: "exploration", Fn: c37.Run},
